@@ -371,6 +371,10 @@ func (p *Policy) sanitize(r io.Reader, w io.Writer) error {
 
 		case html.SelfClosingTagToken:
 
+			// A self-closing <script/> or <style/> still switches the tokenizer
+			// (and a browser) to raw text, so what follows is its content.
+			mostRecentlyStartedToken = normaliseElementName(token.Data)
+
 			switch normaliseElementName(token.Data) {
 			case `script`:
 				if !p.allowUnsafe {
